@@ -61,7 +61,7 @@ var msgCJK = []rune("必填项请输入正确的值手机号长度一\u4e00\u9fa
 var msgOtherScripts = []rune("テストéß한글😀\u4dff\u9fa6\u4000\u9fff\u3400｜İ\u212a") // no character in U+4E00..U+9FA5 (the neighbours just outside included): English label
 
 func genMsg(t *rapid.T) (msg, class string) {
-	class = rapid.SampledFrom([]string{"ascii", "ascii", "cjk", "cjk", "mixed", "other-script", "one-byte", "one-rune-cjk", "quoted-comma", "with-equals", "double-quoted-words", "long-ascii-then-cjk"}).Draw(t, "msgClass")
+	class = rapid.SampledFrom([]string{"ascii", "ascii", "cjk", "cjk", "mixed", "other-script", "one-byte", "one-rune-cjk", "quoted-comma", "with-equals", "double-quoted-words", "long-ascii-then-cjk", "multi-line"}).Draw(t, "msgClass")
 	build := func(pool []rune, lo, hi int) string {
 		n := rapid.IntRange(lo, hi).Draw(t, "msgLen")
 		var b strings.Builder
@@ -93,6 +93,9 @@ func genMsg(t *rapid.T) (msg, class string) {
 		// beyond the first 250 / 256 / 1000 bytes
 		n := rapid.SampledFrom([]int{100, 250, 253, 254, 255, 256, 257, 300, 1000, 5000}).Draw(t, "asciiPrefix")
 		msg = strings.Repeat("developer text ", n/15+1)[:n] + build(msgCJK, 1, 6)
+	}
+	if class == "multi-line" {
+		msg = build(msgASCII, 1, 6) + "\n" + build(msgCJK, 0, 3) + rapid.SampledFrom([]string{"", "\n", "\nline 3"}).Draw(t, "mlTail")
 	}
 	if class == "double-quoted-words" {
 		// answer must be "yes", "no" or "maybe"  (single-quoted as a whole because of the commas)
